@@ -222,49 +222,34 @@ class Engine(object):
         return Z(t, ty)
 
     def alloc_bound(self, st, t, depth=0):
-        """Upper bound on how many objects can have been allocated when the value t was stored."""
+        """Upper bound on how many objects can have been allocated when the value t was stored (cheap,
+        syntactic): pre-state arrays hold nothing allocated during this execution; a havoc array holds
+        nothing allocated after it was created; a store that certainly shadows the read decides alone."""
         cur = st.n_alloc
-        if depth > 40 or not z3.is_app(t):
+        if depth > 8 or not z3.is_app(t):
             return cur
         cid = self.concrete_id(t)
         if cid is not None:
             return max(0, cid - FRESH_BASE)
-        k = t.decl().kind()
-        if k == z3.Z3_OP_SELECT:
-            arr, j = t.arg(0), t.arg(1)
-            best = 0
-            d = depth
-            while z3.is_app(arr) and arr.decl().kind() == z3.Z3_OP_STORE and d < 60:
-                d += 1
-                v = arr.arg(2)
-                vb = self.alloc_bound(st, v, depth + 1) if v.sort() == Val else self.array_bound(st, v, depth + 1)
-                if arr.arg(1).eq(j):
-                    return max(best, vb)          # this store certainly shadows everything below
-                best = max(best, vb)
-                arr = arr.arg(0)
-            return max(best, self.array_bound(st, arr, depth + 1))
-        if t.num_args() == 0 and t.sort() == Val:
-            return cur if t.decl().name() not in st.epochs else st.epochs[t.decl().name()]
-        if t.decl().eq(Val.none) or t.decl().eq(Val.boolv) or t.decl().eq(Val.intv) or t.decl().eq(Val.realv) or t.decl().eq(Val.strv):
-            return 0
-        return cur
-
-    def array_bound(self, st, a, depth=0):
-        cur = st.n_alloc
-        if depth > 40 or not z3.is_app(a):
+        if t.decl().kind() != z3.Z3_OP_SELECT:
+            if t.num_args() == 0 and t.sort() == Val:
+                return st.epochs.get(t.decl().name(), cur)
             return cur
-        k = a.decl().kind()
-        if k == z3.Z3_OP_STORE:
-            v = a.arg(2)
-            vb = self.alloc_bound(st, v, depth + 1) if v.sort() == Val else (self.array_bound(st, v, depth + 1) if z3.is_array(v) else 0)
-            return max(self.array_bound(st, a.arg(0), depth + 1), vb)
-        if k == z3.Z3_OP_SELECT:
-            return self.array_bound(st, a.arg(0), depth + 1)
-        if a.num_args() == 0:
-            nm = a.decl().name()
-            if nm.startswith("H0_"):
-                return 0
-            return st.epochs.get(nm, cur)
+        arr, j = t.arg(0), t.arg(1)
+        d = 0
+        while z3.is_app(arr) and arr.decl().kind() == z3.Z3_OP_STORE and d < 64:
+            d += 1
+            if arr.arg(1).eq(j):
+                v = arr.arg(2)
+                return self.alloc_bound(st, v, depth + 1) if v.sort() == Val else cur
+            if not (z3.is_int_value(arr.arg(1)) and z3.is_int_value(j)):
+                return cur          # a store at a possibly aliasing index: no information
+            arr = arr.arg(0)
+        if z3.is_app(arr) and arr.decl().kind() == z3.Z3_OP_SELECT:
+            return self.alloc_bound(st, arr, depth + 1)      # nested view ($at[list][i])
+        if z3.is_app(arr) and arr.num_args() == 0:
+            nm = arr.decl().name()
+            return 0 if nm.startswith("H0_") else st.epochs.get(nm, cur)
         return cur
 
     def to_val(self, st, v):
